@@ -637,6 +637,17 @@ class C18Hist(object):
                         if a not in uniq:
                             uniq.append(a)
                     base = full_view(tuple(cur), which)
+                    # repeated use: applying once more a modifier that is already part of the
+                    # stack is one more admissible sequence over the same set -- same result
+                    again = uniq[ch.draw(len(uniq), 'apply-again')]
+                    rep_view = full_view(tuple(cur) + (again,), which)
+                    if rep_view != ('inadmissible',):
+                        res.counters['repeated_application_compared'] += 1
+                        if rep_view != base:
+                            diff = [(a, b) for a, b in zip(base, rep_view) if a != b][:2]
+                            viol('H1', 'applying an already applied modifier again changes the result',
+                                 '{0}: {1} vs the same followed by {2} again: {3}'.format(which, cur, again, diff))
+                            return True
                     tried = 0
                     for perm in itertools.permutations(sorted(uniq)):
                         if list(perm) == uniq or tried >= cfg.get('max_perms', 4):
@@ -846,13 +857,14 @@ def check(tier, budget=None, minimise=True):
     coverage = dict(
         evaluations=t.evals,
         distinct_nontrivial=len(t.distinct),
-        rule=('one run = one drawn history (<= {0} operations from retrieve / bind / call / redecorate / drop_slot / '
-              'drop_instance+gc.collect / gc(gen) / new_instance) over a class hierarchy with modifiers-, forger- and '
-              'wrappers-decorated members and three instances; evaluations = operations whose outcome was compared '
-              'with the history-free twin (or reclamation checks); distinct = (modifier lists, abstract history with '
-              'targets reduced to kind/attribute) plus distinct (order, permutation) and (class, touched attributes) '
-              'drop cases; non-trivial = an access followed by another access, a drop or a redecorate.'
-              ).format(cfgs['hist']['hist_len']),
+        rule=('one run = one drawn history (<= {0} operations from retrieve / bind / call / redecorate (K.m, f, f2; decorator '
+              'objects shared across applications in half of the runs) / drop_slot / drop_instance+gc.collect / gc(gen) / '
+              'new_instance / attach / detach / copy_instance) over a class hierarchy with modifiers-, forger- and '
+              'wrappers-decorated members (K.m optionally decorated already in the class body), two module functions and '
+              'four instance positions; evaluations = operations whose outcome was compared with the history-free twin (or '
+              'reclamation checks); distinct = (decoration state, abstract history with targets reduced to kind/attribute) '
+              'plus distinct (order, permutation) and (class, touched attributes) drop cases; non-trivial = an access '
+              'followed by another access, a drop or a redecorate.').format(cfgs['hist']['hist_len']),
         samples=t.samples[:5],
         exhaustive=False,
         runs=t.runs,
